@@ -558,13 +558,183 @@ def check_C12(ctx):
                     ctx.violation("C12:grammar", "lifecycle grammar broken with no known cause: observed %r outcome %d" % (c["observed"], c["outcome"]), {"lifecycle_case": c})
 
 
+# =============================================================================================== C02
+def prove_C02(ctx):
+    ctx.prove(["Properties/C02.v"])
+
+
+def check_C02(ctx):
+    import multiprocessing as mp
+    import sweep
+    import impl
+
+    ctx.stream("files", 80, 600)
+    ctx.stream("binds", 200, 2000)
+    h, leaves, names = _hier()
+    rng = random.Random("c02-%d" % ctx.seed)
+    files = sweep.corpus_files()
+    families = {}
+    for top in h.get("runtime_event", {}):
+        sub = h["runtime_event"][top]
+        if sub:
+            fl = []
+
+            def lv(d):
+                for k, v in d.items():
+                    if v:
+                        lv(v)
+                    else:
+                        fl.append(k)
+
+            lv(sub)
+            families[top] = sorted(set(fl))
+    if ctx.quick:
+        small = [f for f in files if f.stat().st_size < 40000]
+        sample = rng.sample(small, min(150, len(small)))
+    else:
+        sample = files
+    jobs = []
+    for f in sample:
+        sels = [("all", leaves)]
+        fam = rng.choice(sorted(families))
+        sels.append(("family:" + fam, families[fam]))
+        nsub = 1 if ctx.quick else 3
+        for _ in range(nsub):
+            hs = [rng.choice(leaves)] if rng.random() < 0.3 else rng.sample(leaves, rng.randrange(2, 12))
+            sels.append(("subset:" + ",".join(sorted(hs)), hs))
+        if not ctx.quick:
+            for fam2 in sorted(families):
+                if fam2 != fam:
+                    sels.append(("family:" + fam2, families[fam2]))
+        for label, hs in sels:
+            jobs.append((str(f), {l: {} for l in hs}, label))
+    with mp.get_context("fork").Pool(16) as pool:
+        res = pool.map(sweep.check_file, jobs, chunksize=2)
+    st = {"accepted": 0, "declined": 0, "declined_valid": 0, "files": len(sample), "jobs": len(jobs)}
+    for r in res:
+        st[r["status"]] = st.get(r["status"], 0) + 1
+        if r.get("declined_valid") is not None:
+            st["declined_valid"] += 1
+        ctx.count(1, [r["file"] + "|" + r["label"]], [{"file": r["file"], "hooks": r["label"][:80], "status": r["status"]}] if r["status"] != "accepted" else [])
+        ctx.impl_traces += 1
+        for key, what in r["problems"]:
+            ctx.violation(key, "%s [%s]: %s" % (r["file"], r["label"][:120], what), {"file": r["file"], "hooks": r["label"], "problem": what})
+    ctx.streams["corpus_sweep"] = {"cases": len(jobs), "disagreements": 0, "dist": st}
+    ctx.notes["corpus"] = "files available offline: %d (CPython 3.12 stdlib, /venv site-packages, /repo); this run: %d files x hook selections = %d instrumentations" % (len(files), len(sample), len(jobs))
+
+
+# =============================================================================================== C14
+def prove_C14(ctx):
+    ctx.prove(["Properties/C14.v"])
+
+
+def _instr_job(job):
+    """instrument (a copy of) the given sources in a fresh subprocess with the given hash seed / mode; return bytes of all files"""
+    import subprocess
+
+    d, seed, mode, hooks = job
+    code = r"""
+import sys, io, contextlib, json
+from pathlib import Path
+from dynapyt.instrument.instrument import instrument_file, instrument_files
+d = Path(sys.argv[1]); mode = sys.argv[2]; hooks = json.loads(sys.argv[3])
+files = sorted(str(p) for p in d.rglob('*.py'))
+with contextlib.redirect_stdout(io.StringIO()):
+    if mode == 'seq':
+        for f in files: instrument_file(f, {h: {} for h in hooks})
+    elif mode == 'rev':
+        for f in reversed(files): instrument_file(f, {h: {} for h in hooks})
+    elif mode == 'twice':
+        for f in files: instrument_file(f, {h: {} for h in hooks})
+        for f in files: instrument_file(f, {h: {} for h in hooks})
+    elif mode == 'pool':
+        import dynapyt.instrument.instrument as I
+        I.get_hooks_from_analysis = lambda analyses: {h: {} for h in hooks}
+        instrument_files(files, ['x'])
+"""
+    from common import env_for_impl
+
+    env = env_for_impl(Path(d).parent / "tmp" if (Path(d).parent / "tmp").exists() else None)
+    env["PYTHONHASHSEED"] = str(seed)
+    p = subprocess.run([sys.executable, "-c", code, d, mode, json.dumps(hooks)], env=env, capture_output=True, text=True, timeout=600)
+    out = {}
+    for f in sorted(Path(d).rglob("*")):
+        if f.is_file():
+            out[str(f.relative_to(d))] = f.read_bytes()
+    return {"rc": p.returncode, "files": out, "stderr": p.stderr[-300:]}
+
+
+def check_C14(ctx):
+    import shutil
+    from multiprocessing.pool import ThreadPool
+
+    ctx.stream("files", 60, 400)
+    ctx.stream("iids", 100, 600)
+    h, leaves, names = _hier()
+    rng = random.Random("c14-%d" % ctx.seed)
+    progs = _programs(ctx, 4 if ctx.quick else 30)
+    extra = (SUP / "witness_sitesens.py")
+    srcs = dict((n, f["main.py"]) for n, f in progs)
+    if extra.exists():
+        srcs["sitesens"] = extra.read_text()
+    base = ctx.work.sub("c14")
+    groups = []
+    jobs = []
+    gi = 0
+    for rep in range(2 if ctx.quick else 6):
+        chosen = rng.sample(sorted(srcs), min(len(srcs), rng.randrange(2, 5)))
+        hooks = leaves if rep % 2 == 0 else rng.sample(leaves, rng.randrange(3, 20))
+        variants = [("seq", 0), ("seq", 1), ("seq", 12345), ("rev", 3), ("pool", 7), ("twice", 5)]
+        dirs = []
+        for (mode, seed) in variants:
+            d = base / ("g%d-%s-%d" % (gi, mode, seed))
+            (d / "pkg").mkdir(parents=True)
+            for i, n in enumerate(chosen):
+                (d / ("pkg" if i % 2 else ".") / ("%s.py" % n)).write_text(srcs[n])
+            dirs.append(d)
+            jobs.append((str(d), seed, mode, list(hooks)))
+        groups.append((gi, chosen, hooks, variants, dirs))
+        gi += 1
+    with ThreadPool(12) as tp:
+        res = tp.map(_instr_job, jobs)
+    ri = 0
+    for gi, chosen, hooks, variants, dirs in groups:
+        rs = res[ri:ri + len(variants)]
+        ri += len(variants)
+
+        def norm(r, d):
+            # file contents with the absolute directory replaced (the path is embedded in the instrumented text and id map)
+            return {k: v.replace(str(d).encode(), b"<DIR>") for k, v in r["files"].items()}
+
+        ref = norm(rs[0], dirs[0])
+        ctx.count(len(variants), ["g%d:%s:%d" % (gi, ",".join(chosen), len(hooks))], [{"files": chosen, "hooks": len(hooks), "variants": variants, "outputs": sorted(ref)}])
+        ctx.impl_traces += len(variants)
+        for (mode, seed), r, d in zip(variants, rs, dirs):
+            if r["rc"] != 0:
+                ctx.violation("C14:crash:%s" % mode, "instrumentation (%s, hash seed %d) failed: %s" % (mode, seed, r["stderr"]), {"files": chosen, "hooks": hooks, "mode": mode, "seed": seed})
+                continue
+            cur = norm(r, d)
+            if cur != ref:
+                diff = sorted(k for k in set(cur) | set(ref) if cur.get(k) != ref.get(k))
+                kind = {"seq": "hash_seed", "rev": "file_order", "pool": "worker_pool", "twice": "idempotence"}[mode]
+                ctx.violation("C14:%s" % kind, "instrumenting %r with %d hooks (%s, hash seed %d) differs from the sequential seed-0 result in %r" % (chosen, len(hooks), mode, seed, diff[:4]), {"files": {n: srcs[n] for n in chosen}, "hooks": hooks, "mode": mode, "seed": seed, "differs": diff})
+        # restore: copying the preserved originals back gives the original bytes
+        d0 = dirs[0]
+        for i, n in enumerate(chosen):
+            p = d0 / ("pkg" if i % 2 else ".") / ("%s.py" % n)
+            o = Path(str(p) + ".orig")
+            if not o.exists() or o.read_text() != srcs[n]:
+                ctx.violation("C14:restore", "preserved original of %s missing or different" % n, {"file": n})
+    shutil.rmtree(base, ignore_errors=True)
+
+
 # =============================================================================================== registry
 def _todo(ctx):
     pass
 
 
-PROVE = {"C09": prove_C09, "C10": prove_C10, "C11": prove_C11, "C12": prove_C12, "C13": prove_C13}
-CHECK = {"C09": check_C09, "C10": check_C10, "C11": check_C11, "C12": check_C12, "C13": check_C13}
+PROVE = {"C02": prove_C02, "C14": prove_C14, "C09": prove_C09, "C10": prove_C10, "C11": prove_C11, "C12": prove_C12, "C13": prove_C13}
+CHECK = {"C02": check_C02, "C14": check_C14, "C09": check_C09, "C10": check_C10, "C11": check_C11, "C12": check_C12, "C13": check_C13}
 
 
 def replay(ctx, payload):
